@@ -42,6 +42,13 @@ SLICES = [
     {"name": "PresaltedSipHasher_call_extra", "kind": "func", "file": SC, "head": r"uint64_t PresaltedSipHasher::operator\(\)\(const uint256& val, uint32_t extra\) const noexcept",
      "rules": [R("head", r"uint64_t PresaltedSipHasher::operator\(\)\(const uint256& val, uint32_t extra\) const(?:\s*noexcept)?", "uint64_t PresaltedSipHasher_call_extra(const PresaltedSipHasher* self, const uint256_c* val, uint32_t extra)"), CHAIN, GETU64]},
 ]
+CC = "src/crypto/chacha20.cpp"
+def _store(name, within):
+    return {"name": name, "cname": "ChaCha20Aligned_" + name, "kind": "frag", "file": CC, "within": within, "begin": r"if \(blocks == 1\) \{", "end": r"blocks -= 1;", "include_end": False,
+            "prologue": "int ChaCha20Aligned_" + name + "(ChaCha20Aligned* self, size_t blocks, uint32_t j12, uint32_t j13)\n{", "epilogue": "    return 0;   /* more blocks follow */\n}",
+            "rules": [R("member:input[]", r"(?<![\w.>])input\[", "self->input[", True), R("return -> the function is done", r"return;", "return 1;", True)]}
+SLICES += [_store("Keystream_store_counter", r"inline void ChaCha20Aligned::Keystream\(std::span<std::byte> output\) noexcept"),
+           _store("Crypt_store_counter", r"inline void ChaCha20Aligned::Crypt\(std::span<const std::byte> in_bytes, std::span<std::byte> out_bytes\) noexcept")]
 for _s in SLICES:
     _s["guard"] = "C49_CONSTS" if _s["kind"] == "const" else "C49_FUNCS"
 PLAN = {
@@ -51,17 +58,19 @@ PLAN = {
         {"name": "h_presalted_extra", "enforce": "PresaltedSipHasher_call_extra", "unwind": 8, "twins": [{"define": "TWIN_SIP_LEN", "expect": "postcondition"}]},
         {"name": "h_lemma_hasher_words", "unwind": 8, "twins": [{"define": "TWIN_WORDS", "expect": "assertion"}]},
         {"name": "h_lemma_hasher_bytes36", "unwind": 40, "twins": [{"define": "TWIN_BYTES", "expect": "assertion"}]},
+        {"name": "h_Keystream_store_counter", "enforce": "ChaCha20Aligned_Keystream_store_counter", "twins": [{"define": "TWIN_STORE", "expect": "postcondition"}]},
+        {"name": "h_Crypt_store_counter", "enforce": "ChaCha20Aligned_Crypt_store_counter"},
         {"name": "h_lemma_bytes16", "unwind": 20},
     ] + [{"name": f"h_lemma_chunk_{k}", "unwind": 20, "reach": k in (0, 5, 16)} for k in range(17)] + [
     ],
-    "native": {"src": "replay.cpp", "c_src": "native_slices.c", "repo_sources": ["src/crypto/siphash.cpp"], "diff_n_quick": 20000, "diff_n_thorough": 2000000, "libs": ["libbitcoin_crypto.a", "libbitcoin_util.a"]},
+    "native": {"src": "replay.cpp", "c_src": "native_slices.c", "repo_sources": ["src/crypto/siphash.cpp", "src/crypto/chacha20.cpp"], "diff_n_quick": 20000, "diff_n_thorough": 2000000, "libs": ["libbitcoin_crypto.a", "libbitcoin_util.a"]},
     "not_covered": ["ChaCha20 (attempted: the one-block equivalence with the RFC 8439 block function went through once by hand for a fixed output word in 5.5 minutes, but with an arbitrary word it exceeded 25 minutes and the multi-block loop-contract version ran out of memory; not claimed)", "SHA-256 / SHA-512 / SHA-1 / SHA3 / RIPEMD-160 compression functions, HMAC, HKDF, Poly1305, AES, the AEAD and its tamper rejection, SIMD back ends: none of these is under contract (hash compression functions against the FIPS text and wide multiplication are outside what the back ends decided here)",
                     "SipHash for message lengths other than 32 and 36 bytes (the two lengths the node hashes: txids / outpoints), SipHasher13UJ"],
     "assumptions": ["uint256::GetUint64(i) is the i-th 64-bit little-endian word of the value (the C rendering reads w[i]); the reference function spec_siphash24 in specs/C49/spec.c is written from the SipHash paper (Aumasson-Bernstein 2012, section 2) and is itself checked natively against the paper's test vector",
                     "std::rotl on uint64_t is ROTL64 (x << n | x >> (64 - n))"],
     "manifest": {
         "category": "proof",
-        "text": "partial (SipHash-2-4 only): for every 128-bit key and every input, PresaltedSipHasher(k0,k1)(uint256) equals SipHash-2-4 of the 32 bytes, PresaltedSipHasher(uint256, extra) equals SipHash-2-4 of the 36 bytes (value || LE32 extra), "
+        "text": "partial (SipHash-2-4; one ChaCha20 bookkeeping fact): when ChaCha20Aligned::Keystream / Crypt finish their last block they store BOTH words of the running 64-bit block counter back into the cipher state (and only then; nothing else of the state is written), so a following call continues where this one stopped -- needed for chunked use to equal one-shot use across a 2^32-block boundary; for every 128-bit key and every input, PresaltedSipHasher(k0,k1)(uint256) equals SipHash-2-4 of the 32 bytes, PresaltedSipHasher(uint256, extra) equals SipHash-2-4 of the 36 bytes (value || LE32 extra), "
                 "CSipHasher with four Write(uint64) calls and with a byte-wise Write(span) of 36 bytes gives the same results (specialised paths = generic path), and writing 16 bytes in one call or split at any point gives the same hash (chunking).",
         "note": "Not covered: every other primitive in the statement (ChaCha20Aligned::Keystream against an RFC 8439 block function was attempted and is NOT claimed: see DESIGN 8.3). The reference is a spec function written from the SipHash paper; rounds are structurally unwound (c=2, d=4, at most 5 message words).",
         "technique": "CBMC function contracts on extracted crypto/siphash.{h,cpp} against a spec function of SipHash-2-4; loops over a constant number of words/bytes unwound with unwinding assertions",
